@@ -17,6 +17,10 @@
 (*              full | OFS(offset - entries[base]) | REF(base);            *)
 (*              entries[id] := offset                                      *)
 (*   Trailer    the checksum                                               *)
+(*   Ingest     (apis 8, 9) the stream just written is handed to a store:  *)
+(*              DiskObjectStore.add_thin_pack (streaming reader) or        *)
+(*              add_pack (mapped reader); the store appends the outside    *)
+(*              bases of a thin pack (extend_pack) and fixes the count     *)
 (*   Index      write_pack_index over sorted(entries) (apis that keep the  *)
 (*              dict) or over the scan of the pack (DiskObjectStore)       *)
 (*                                                                         *)
@@ -68,29 +72,38 @@ U(oid) ==
 \* <<api, deltify, window, reuse, thin, ofs, level, idxv, oid>>
 \* api: 1 write_pack  2 write_pack_objects  3 pack_objects_to_data + write_pack_data
 \*      4 DiskObjectStore.add_objects  5 DiskObjectStore.repack  6 write_pack_from_container
+\*      8 DiskObjectStore.add_thin_pack  9 DiskObjectStore.add_pack   (both ingest the stream api 6 would write;
+\*        ofs = 0: every delta of the stream is a REF_DELTA, also where the base precedes it -- what a peer
+\*        without ofs-delta sends)
+\*      10 pack_objects_to_data + PackBasedObjectStore.add_pack_data
+\*      (7 is a harness-only scenario: a pack copied record by record with its compressed chunks)
+Container(a) == a \in {6, 8, 9}
+Ingest(a) == a \in {8, 9}
 RowValid(r) ==
     /\ (r[1] \in {4, 5}) => (r[2] = 0)
     /\ (r[2] = 0) => (r[3] = 10)
-    /\ (r[1] # 6) => (r[4] = 0 /\ r[5] = 0)
-    /\ (r[1] # 3) => (r[6] = 1)
+    /\ (~Container(r[1])) => (r[4] = 0 /\ r[5] = 0)
+    /\ (r[1] \notin {3, 8, 9}) => (r[6] = 1)
     /\ (r[1] = 1) => (r[8] = 2)
     /\ (r[5] = 1) => (r[4] = 1)
-RowsAll == { r \in (1..6) \X {0, 1} \X {0, 1, 10} \X {0, 1} \X {0, 1} \X {0, 1} \X {-1, 0, 9} \X {1, 2, 3} \X {20, 32} :
-             RowValid(r) }
-\* every pair of option values that occurs in RowsAll occurs here, separately for SHA-1 and SHA-256
+RowsAll == { r \in {1, 2, 3, 4, 5, 6, 8, 9, 10} \X {0, 1} \X {0, 1, 10} \X {0, 1} \X {0, 1} \X {0, 1} \X {-1, 0, 9}
+                  \X {1, 2, 3} \X {20, 32} : RowValid(r) }
+\* every pair of option values that occurs in RowsAll occurs here (plus the ingest rows with REF_DELTA entries
+\* before / after / outside their base)
 RowsPairwise == {
-    <<6, 1, 10, 1, 1, 1, 9, 2, 20>>, <<3, 0, 10, 0, 0, 0, -1, 1, 20>>, <<2, 1, 0, 0, 0, 1, 0, 3, 20>>,
-    <<6, 1, 1, 1, 1, 1, 0, 1, 20>>, <<1, 1, 1, 0, 0, 1, -1, 2, 20>>, <<5, 0, 10, 0, 0, 1, 9, 3, 20>>,
-    <<4, 0, 10, 0, 0, 1, 0, 2, 20>>, <<3, 1, 0, 0, 0, 0, 9, 2, 20>>, <<6, 1, 0, 1, 1, 1, -1, 3, 20>>,
-    <<3, 1, 1, 0, 0, 0, 0, 3, 20>>, <<2, 0, 10, 0, 0, 1, 9, 1, 20>>, <<6, 0, 10, 1, 0, 1, 0, 3, 20>>,
-    <<2, 1, 1, 0, 0, 1, -1, 2, 20>>, <<1, 0, 10, 0, 0, 1, 9, 2, 20>>, <<4, 0, 10, 0, 0, 1, 9, 1, 20>>,
-    <<5, 0, 10, 0, 0, 1, 0, 2, 20>>, <<6, 1, 1, 0, 0, 1, 9, 2, 20>>, <<1, 1, 0, 0, 0, 1, 0, 2, 20>>,
-    <<5, 0, 10, 0, 0, 1, -1, 1, 20>>, <<3, 1, 0, 0, 0, 1, 0, 1, 20>>, <<4, 0, 10, 0, 0, 1, -1, 3, 20>>,
-    <<6, 0, 10, 1, 1, 1, 0, 3, 20>>, <<6, 0, 10, 0, 0, 1, -1, 1, 20>>, <<2, 1, 10, 0, 0, 1, 9, 3, 20>>,
-    <<3, 1, 10, 0, 0, 1, -1, 2, 20>>, <<6, 1, 10, 0, 0, 1, 0, 2, 20>>,
-    <<4, 0, 10, 0, 0, 1, -1, 2, 32>>, <<5, 0, 10, 0, 0, 1, 0, 2, 32>>, <<1, 1, 10, 0, 0, 1, 9, 2, 32>>,
-    <<2, 0, 10, 0, 0, 1, 0, 1, 32>>, <<3, 1, 1, 0, 0, 0, -1, 3, 32>>, <<6, 1, 0, 1, 1, 1, 9, 2, 32>>,
-    <<4, 0, 10, 0, 0, 1, 9, 1, 32>>, <<5, 0, 10, 0, 0, 1, -1, 3, 32>>, <<6, 0, 10, 1, 0, 1, 0, 2, 32>> }
+    <<6, 1, 10, 1, 1, 1, 9, 1, 32>>, <<8, 1, 0, 0, 0, 0, -1, 2, 20>>, <<5, 0, 10, 0, 0, 1, 0, 3, 32>>,
+    <<9, 1, 1, 1, 1, 0, 0, 1, 20>>, <<9, 0, 10, 1, 1, 1, -1, 2, 20>>, <<3, 1, 1, 0, 0, 0, 9, 3, 32>>,
+    <<2, 1, 0, 0, 0, 1, -1, 1, 32>>, <<8, 0, 10, 1, 1, 0, 9, 3, 32>>, <<10, 1, 1, 0, 0, 1, 9, 2, 20>>,
+    <<1, 1, 0, 0, 0, 1, 0, 2, 32>>, <<6, 1, 0, 0, 0, 1, -1, 3, 20>>, <<4, 0, 10, 0, 0, 1, 9, 1, 20>>,
+    <<9, 1, 0, 1, 0, 1, 9, 3, 32>>, <<3, 0, 10, 0, 0, 1, 0, 2, 20>>, <<2, 0, 10, 0, 0, 1, 0, 2, 20>>,
+    <<10, 0, 10, 0, 0, 1, -1, 3, 32>>, <<8, 1, 1, 1, 1, 1, -1, 1, 20>>, <<5, 0, 10, 0, 0, 1, 9, 2, 20>>,
+    <<1, 0, 10, 0, 0, 1, 9, 2, 20>>, <<6, 0, 10, 0, 0, 1, 0, 2, 32>>, <<10, 1, 0, 0, 0, 1, 0, 1, 32>>,
+    <<3, 1, 0, 0, 0, 0, -1, 1, 32>>, <<4, 0, 10, 0, 0, 1, -1, 2, 32>>, <<8, 1, 0, 1, 1, 0, 0, 2, 32>>,
+    <<2, 1, 1, 0, 0, 1, 9, 3, 20>>, <<4, 0, 10, 0, 0, 1, 0, 3, 32>>, <<1, 1, 1, 0, 0, 1, -1, 2, 20>>,
+    <<5, 0, 10, 0, 0, 1, -1, 1, 20>>, <<9, 0, 10, 0, 0, 0, 0, 3, 32>>, <<6, 1, 1, 0, 0, 1, -1, 2, 20>>,
+    <<8, 0, 10, 1, 0, 1, -1, 2, 20>>, <<8, 0, 10, 1, 1, 1, 0, 2, 20>>, <<8, 1, 10, 0, 0, 0, -1, 2, 20>>,
+    <<9, 0, 10, 1, 1, 0, 9, 1, 20>>, <<9, 1, 10, 0, 0, 0, 0, 2, 20>>, <<8, 1, 1, 1, 1, 0, 9, 3, 20>>,
+    <<10, 1, 10, 0, 0, 1, -1, 2, 20>> }
 RowsPlain == { r \in RowsPairwise : r[9] = 20 /\ r[1] \in {1, 3, 4} }
 
 Api(c) == c.row[1]
@@ -102,6 +115,8 @@ IdxV(c) == c.row[8]
 Oid(c) == c.row[9]
 \* which index the api produces: from the dict `entries` (one entry per name) or from a scan of the pack
 IdxFromDict(c) == c.row[1] \in {1, 2, 3, 6}
+\* the ingested stream carries REF_DELTA entries only
+ForceRef(c) == Ingest(c.row[1]) /\ c.row[6] = 0
 
 U20 == U(20)
 U32 == U(32)
@@ -179,7 +194,7 @@ Input == IF DedupInput THEN Dedup(case.objs) ELSE case.objs
 Start ==
     /\ pc = "start"
     /\ cnt' = Len(Input)
-    /\ IF Api(case) = 6
+    /\ IF Container(Api(case))
        THEN /\ order' = Sorted(case, Input \o SetToSeq(case.have))
             /\ pc' = "srcdelta" /\ recs' = <<>>
        ELSE IF Deltify(case)
@@ -216,9 +231,9 @@ ReuseStep ==
     /\ UNCHANGED <<case, src, ents, pos, es, cnt>>
 
 \* deltas_from_sorted_objects, one object per step
-OrdId(j) == IF Api(case) = 6 THEN order[j].id ELSE order[j]
+OrdId(j) == IF Container(Api(case)) THEN order[j].id ELSE order[j]
 OrdIds == [ j \in DOMAIN order |-> OrdId(j) ]
-DeltaLo == IF Api(case) = 6 THEN Len(Reusable) + 1 ELSE 1
+DeltaLo == IF Container(Api(case)) THEN Len(Reusable) + 1 ELSE 1
 DeltaStep ==
     /\ pc = "delta"
     /\ LET j == Len(recs) + 1
@@ -235,7 +250,7 @@ EntryFor(r, k) ==
     THEN LET h == ObjHeader(u.t, u.size) IN
          [ off |-> pos, end |-> LAdd(pos, AddSmall(CLen(u.size), Len(h))), id |-> r.id, kind |-> "full", t |-> u.t,
            size |-> u.size, hdr |-> h, ofsb |-> <<>>, base |-> 0, crc |-> Crc(k), rt |-> u.t ]
-    ELSE IF r.base \in DOMAIN ents
+    ELSE IF r.base \in DOMAIN ents /\ ~ForceRef(case)
     THEN LET h == ObjHeader(OFS, DeltaSize)
              d == LSub(pos, ents[r.base])
              o == IF OfsPlain THEN OfsEncodePlain(d) ELSE OfsEncode(d) IN
@@ -246,19 +261,44 @@ EntryFor(r, k) ==
            t |-> REF, size |-> DeltaSize, hdr |-> h, ofsb |-> <<>>, base |-> r.base, crc |-> Crc(k), rt |-> u.t ]
 
 \* one record (the 12-byte header precedes the first, the trailer follows the last)
+AfterWrite == IF Ingest(Api(case)) THEN "ingest" ELSE "index"
 Write ==
     /\ pc = "write"
-    /\ IF recs = <<>> THEN pc' = "index" /\ UNCHANGED <<es, ents, pos>>
+    /\ IF recs = <<>> THEN pc' = AfterWrite /\ UNCHANGED <<es, ents, pos>>
        ELSE LET k == Len(es) + 1
                 e == EntryFor(recs[k], k) IN
             /\ es' = Append(es, e)
             /\ ents' = (recs[k].id :> pos) @@ ents
             /\ pos' = e.end
-            /\ pc' = IF k = Len(recs) THEN "index" ELSE "write"
+            /\ pc' = IF k = Len(recs) THEN AfterWrite ELSE "write"
     /\ UNCHANGED <<case, order, src, recs, cnt>>
 
+\* add_thin_pack / add_pack: the stream is copied as it is; the bases it names but does not contain are fetched
+\* from the store and appended as full objects (extend_pack), the count field is corrected
+Missing == { es[i].base : i \in { j \in DOMAIN es : es[j].kind = "ref" } } \ { es[i].id : i \in DOMAIN es }
+FullAt(id, at, k) ==
+    LET u == UU(case)[id]  h == ObjHeader(u.t, u.size) IN
+    [ off |-> at, end |-> LAdd(at, AddSmall(CLen(u.size), Len(h))), id |-> id, kind |-> "full", t |-> u.t,
+      size |-> u.size, hdr |-> h, ofsb |-> <<>>, base |-> 0, crc |-> Crc(k), rt |-> u.t ]
+RECURSIVE Extend(_, _, _)
+Extend(acc, ms, at) ==
+    IF ms = <<>> THEN acc
+    ELSE LET e == FullAt(ms[1], at, Len(acc) + 1) IN Extend(Append(acc, e), Tail(ms), e.end)
+IngestStep ==
+    /\ pc = "ingest"
+    /\ LET ms == SetToSeq(Missing)
+           es2 == Extend(es, ms, pos) IN
+       /\ es' = es2
+       /\ cnt' = cnt + Len(ms)
+       /\ pos' = IF es2 = <<>> THEN pos ELSE es2[Len(es2)].end
+       /\ ents' = [ id \in DOMAIN ents \cup Missing |->
+                      IF id \in DOMAIN ents THEN ents[id]
+                      ELSE es2[CHOOSE j \in DOMAIN es2 : es2[j].id = id].off ]
+    /\ pc' = "index"
+    /\ UNCHANGED <<case, order, src, recs>>
+
 Pk == [ count |-> N(cnt), hlen |-> 12, dlen |-> pos, trailer |-> TRUE, oidlen |-> Oid(case),
-        ext |-> case.have, es |-> es ]
+        ext |-> IF Ingest(Api(case)) /\ pc \in {"index", "done"} THEN {} ELSE case.have, es |-> es ]
 
 FirstByte(id) == (id * 53) % 256
 \* <<id, off, crc>> sorted by id (the model's name order)
@@ -296,7 +336,7 @@ Index ==
                    cnt, IF Ix.ok THEN 1 ELSE 0 >>)
     /\ UNCHANGED <<case, order, src, recs, ents, pos, es, cnt>>
 
-Next == Start \/ SrcDelta \/ ReuseStep \/ DeltaStep \/ Write \/ Index
+Next == Start \/ SrcDelta \/ ReuseStep \/ DeltaStep \/ Write \/ IngestStep \/ Index
 Spec == Init /\ [][Next]_vars
 
 \* ------------------------------------------------------------------ invariants
@@ -307,7 +347,8 @@ PrefixInv ==
         /\ \A i \in DOMAIN es : HeaderOK(es[i]) /\ OfsLands(PrefixPk, i)
         /\ OffsetsOK(PrefixPk)
 \* the finished pack is consistent and is what the writer rule produces
-PackInv == pc \in {"index", "done"} => (PackLayout(Pk) = <<>> /\ WriterRule(Pk) = <<>>)
+\* (a stream turned into REF_DELTA entries throughout is deliberately not what PackChunkGenerator writes)
+PackInv == pc \in {"index", "done"} => (PackLayout(Pk) = <<>> /\ (ForceRef(case) \/ WriterRule(Pk) = <<>>))
 \* sequential iteration (full entries first, then whatever they unblock) reaches every entry
 RECURSIVE Reach(_, _)
 Reach(pk, S) ==
